@@ -138,6 +138,9 @@ type IdP struct {
 	StaticRefreshToken bool // refresh grants do not rotate the refresh token (one saved browser state can be refreshed repeatedly)
 	RefreshFails   bool
 	TokenPadding   int // extra bytes in access tokens minted on refresh (growing sessions)
+	// TokenPaddingRandom: the padding is taken from a deterministic hash stream (keyed by the
+	// token generation) instead of a repeated 'x', so that compression cannot shrink it away.
+	TokenPaddingRandom bool
 	AccessTTL      time.Duration
 	ValidateOK     bool
 	UserinfoClaims map[string]any // overrides for the userinfo response
@@ -462,7 +465,7 @@ func (p *IdP) issue(req *http.Request, a *AuthRequest, u *User, f *family) *http
 	gen := p.codeSeq
 	at := fmt.Sprintf("at-%d-%s", gen, u.Sub)
 	if refresh && p.TokenPadding > 0 {
-		at += "-" + strings.Repeat("x", p.TokenPadding)
+		at += "-" + p.padding(gen, p.TokenPadding)
 	}
 	p.access[at] = u
 	out := map[string]any{
@@ -525,6 +528,19 @@ func (p *IdP) issue(req *http.Request, a *AuthRequest, u *User, f *family) *http
 		out["id_token"] = p.MintIDToken(u, spec)
 	}
 	return jsonResp(req, 200, out)
+}
+
+// padding returns n bytes of access-token padding for token generation gen.
+func (p *IdP) padding(gen, n int) string {
+	if !p.TokenPaddingRandom {
+		return strings.Repeat("x", n)
+	}
+	var b strings.Builder
+	for i := 0; b.Len() < n; i++ {
+		s := sha256.Sum256([]byte(fmt.Sprintf("pad-%d-%d", gen, i)))
+		b.WriteString(base64.RawURLEncoding.EncodeToString(s[:]))
+	}
+	return b.String()[:n]
 }
 
 // Authorize plays the user's visit to the authorization endpoint: it validates and records
